@@ -3,6 +3,7 @@ package directory
 import (
 	"fmt"
 	"io"
+	"math"
 	"sort"
 	"sync"
 
@@ -115,6 +116,9 @@ func (s *serviceDirectory) RegisterService(newInfo ServiceInfo) (uint32, error) 
 		if info.Name == newInfo.Name {
 			return 0, fmt.Errorf("Service name already ready: %s", info.Name)
 		}
+	}
+	if s.lastID == math.MaxUint32 {
+		return 0, fmt.Errorf("service identifiers exhausted")
 	}
 	s.lastID++
 	newInfo.ServiceId = s.lastID
